@@ -2,6 +2,7 @@ package simnode
 
 import (
 	"bytes"
+	"context"
 	"encoding/hex"
 	"encoding/json"
 	"fmt"
@@ -11,6 +12,10 @@ import (
 	"strconv"
 	"strings"
 	"sync"
+	"time"
+
+	"nhooyr.io/websocket"
+	"nhooyr.io/websocket/wsjson"
 )
 
 type Request struct {
@@ -38,7 +43,68 @@ type Node struct {
 	version, seq  int
 	before, after func(*Exchange)
 	log           []Exchange
+	subs          []*websocket.Conn // eth_subscribe("newHeads") subscribers (path /ws)
+	wsAnnounced   []string          // "<number> <hash hex>" of every head pushed to the subscribers
 }
+
+// WSURL is the websocket endpoint: eth_subscribe newHeads, then one notification per Announce.
+func (n *Node) WSURL() string { return "ws" + strings.TrimPrefix(n.srv.URL, "http") + "/ws" }
+
+func (n *Node) serveWS(w http.ResponseWriter, r *http.Request) {
+	c, err := websocket.Accept(w, r, nil)
+	if err != nil {
+		return
+	}
+	ctx := context.Background()
+	var req struct {
+		ID json.RawMessage `json:"id"`
+	}
+	if err := wsjson.Read(ctx, c, &req); err != nil {
+		c.Close(websocket.StatusNormalClosure, "")
+		return
+	}
+	wsjson.Write(ctx, c, map[string]any{"jsonrpc": "2.0", "id": req.ID, "result": "0x1"})
+	n.mu.Lock()
+	n.subs = append(n.subs, c)
+	n.mu.Unlock()
+	for {
+		if _, _, err := c.Read(ctx); err != nil {
+			return
+		}
+	}
+}
+
+// Announce pushes a newHeads notification carrying (num, hash) to every subscriber.
+func (n *Node) Announce(num uint64, hash []byte) {
+	n.mu.Lock()
+	subs := append([]*websocket.Conn(nil), n.subs...)
+	n.wsAnnounced = append(n.wsAnnounced, fmt.Sprintf("%d %x", num, hash))
+	n.mu.Unlock()
+	msg := map[string]any{"jsonrpc": "2.0", "method": "eth_subscription", "params": map[string]any{"subscription": "0x1",
+		"result": map[string]any{"number": HexU(num), "hash": "0x" + hex.EncodeToString(hash)}}}
+	for _, c := range subs {
+		ctx, cancel := context.WithTimeout(context.Background(), time.Second)
+		wsjson.Write(ctx, c, msg)
+		cancel()
+	}
+}
+
+// AnnounceHead pushes the chain's current head.
+func (n *Node) AnnounceHead() {
+	n.mu.Lock()
+	b := n.chain.Blocks[len(n.chain.Blocks)-1]
+	n.mu.Unlock()
+	n.Announce(b.Num, b.Hash)
+}
+
+// WSAnnounced lists every pair pushed so far; Subscribers the number of live subscriptions.
+func (n *Node) WSAnnounced() []string {
+	n.mu.Lock()
+	defer n.mu.Unlock()
+	return append([]string(nil), n.wsAnnounced...)
+}
+
+func (n *Node) Subscribers() int { n.mu.Lock(); defer n.mu.Unlock(); return len(n.subs) }
 
 // NewNode starts an HTTP server (any path, POST) serving c.
 func NewNode(c *Chain) *Node {
@@ -146,6 +212,10 @@ func (n *Node) fingerprint() string {
 }
 
 func (n *Node) serve(w http.ResponseWriter, r *http.Request) {
+	if r.URL.Path == "/ws" {
+		n.serveWS(w, r)
+		return
+	}
 	body, _ := io.ReadAll(r.Body)
 	n.mu.Lock()
 	ex := Exchange{Seq: n.seq, Status: 200}
